@@ -37,6 +37,11 @@ pub trait Observer: Send + Sync {
     fn cv_wait_begin(&self, _cv: usize, _lock: LockId) {}
     /// Only called if [Observer::takes_over_cv]: blocks until `cv` is notified (spurious returns allowed).
     fn cv_block(&self, _cv: usize, _lock: LockId) {}
+    /// Only called if [Observer::takes_over_cv]: like [Observer::cv_block] for a bounded wait. Returns whether the
+    /// wait timed out (the observer owns the notion of time).
+    fn cv_block_timeout(&self, _cv: usize, _lock: LockId, _dur: std::time::Duration) -> bool {
+        false
+    }
     /// The calling thread returned from waiting on `cv` (and owns `lock` again).
     fn cv_wait_end(&self, _cv: usize, _lock: LockId) {}
     /// `cv` was notified.
@@ -194,6 +199,16 @@ pub mod sync {
         id: usize,
     }
 
+    /// Same as [std::sync::WaitTimeoutResult] (which cannot be built by hand).
+    #[derive(Debug, Clone, Copy, PartialEq, Eq)]
+    pub struct WaitTimeoutResult(bool);
+
+    impl WaitTimeoutResult {
+        pub fn timed_out(&self) -> bool {
+            self.0
+        }
+    }
+
     impl Condvar {
         pub fn new() -> Self {
             Condvar {
@@ -232,6 +247,57 @@ pub mod sync {
                             inner: Some(e.into_inner()),
                             mutex,
                         })),
+                    }
+                }
+            }
+        }
+
+        pub fn wait_timeout<'a, T>(
+            &self,
+            mut guard: MutexGuard<'a, T>,
+            dur: std::time::Duration,
+        ) -> LockResult<(MutexGuard<'a, T>, WaitTimeoutResult)> {
+            let mutex = guard.mutex;
+            let obs = observer();
+            match &obs {
+                Some(o) if o.takes_over_cv() => {
+                    o.cv_wait_begin(self.id, mutex.id);
+                    drop(guard);
+                    let timed_out = o.cv_block_timeout(self.id, mutex.id, dur);
+                    let res = mutex.lock();
+                    o.cv_wait_end(self.id, mutex.id);
+                    match res {
+                        Ok(g) => Ok((g, WaitTimeoutResult(timed_out))),
+                        Err(e) => Err(PoisonError::new((e.into_inner(), WaitTimeoutResult(timed_out)))),
+                    }
+                }
+                _ => {
+                    if let Some(o) = &obs {
+                        o.cv_wait_begin(self.id, mutex.id);
+                    }
+                    let inner = guard.inner.take().unwrap();
+                    let res = self.inner.wait_timeout(inner, dur);
+                    if let Some(o) = &obs {
+                        o.cv_wait_end(self.id, mutex.id);
+                    }
+                    match res {
+                        Ok((g, t)) => Ok((
+                            MutexGuard {
+                                inner: Some(g),
+                                mutex,
+                            },
+                            WaitTimeoutResult(t.timed_out()),
+                        )),
+                        Err(e) => {
+                            let (g, t) = e.into_inner();
+                            Err(PoisonError::new((
+                                MutexGuard {
+                                    inner: Some(g),
+                                    mutex,
+                                },
+                                WaitTimeoutResult(t.timed_out()),
+                            )))
+                        }
                     }
                 }
             }
